@@ -75,8 +75,35 @@ def normMembers : List (String × Json) → List (String × Json)
     | none => if isNull v then rest else insertSorted k (norm v) rest
 end
 
-/-- `a ≃ b`: JSON-equal, except that members given as explicit null may be omitted -/
-def eqv (a b : Json) : Bool := norm a == norm b
+/-- canonical-form comparison (used for printing/diffing) -/
+def eqvNorm (a b : Json) : Bool := norm a == norm b
+
+/- `sub a b`: every non-null member of `a` (at every depth) occurs in `b` with a value that
+   contains it in the same sense; arrays are compared index-wise, atoms by equality. -/
+mutual
+def sub : Json → Json → Bool
+  | null, null => true
+  | bool a, bool b => a == b
+  | num a, num b => a == b
+  | str a, str b => a == b
+  | arr xs, arr ys => subList xs ys
+  | obj ms, obj ms' => subMembers ms ms'
+  | _, _ => false
+def subList : List Json → List Json → Bool
+  | [], [] => true
+  | x :: xs, y :: ys => sub x y && subList xs ys
+  | _, _ => false
+def subMembers : List (String × Json) → List (String × Json) → Bool
+  | [], _ => true
+  | (k, v) :: t, ms' =>
+    (isNull v || (match lookup k ms' with
+                  | some v' => sub v v'
+                  | none => false)) && subMembers t ms'
+end
+
+/-- `a ≃ b`: JSON-equal (object member order irrelevant), except that members given as explicit
+    null may be omitted: mutual containment. -/
+def eqv (a b : Json) : Bool := sub a b && sub b a
 
 /-! ### text (driver side) -/
 
